@@ -50,3 +50,42 @@ def submit_closures(fx):
                 f = fx.fn(s["def"])
                 out.append((kind, f, key))
     return out
+
+
+def closure_instances(fx, cdef):
+    """capture types of each known instantiation of a submit / receive closure: [[type, ...], ...]. A closure written in a
+    generic helper (`waiting_tx<A, S: Sink<..>>`) appears once per call site of that helper with its parameters
+    instantiated (hfacts), besides the generic form."""
+    out = []
+    for _key, ent in fx.dyn.items():
+        for s in ent["sources"]:
+            if s.get("def") == cdef and "|" in (s.get("full") or ""):
+                caps = _split_top(s["full"].split("|", 1)[1])
+                if caps not in out:
+                    out.append(caps)
+    return out
+
+
+def _split_top(s):
+    out, depth, cur = [], 0, ""
+    for ch in s:
+        if ch in "<([{":
+            depth += 1
+        elif ch in ">)]}":
+            depth -= 1
+        if ch == "," and depth == 0:
+            out.append(cur.strip())
+            cur = ""
+        else:
+            cur += ch
+    if cur.strip():
+        out.append(cur.strip())
+    return out
+
+
+def concrete_instances(fx, cf):
+    """instances whose captures mention no bare type parameter of the enclosing function; falls back to the closure's own
+    capture list when it is not generic"""
+    gen = set((fx.fn(cf.get("root", cf["def"])) or {}).get("generics") or [])
+    inst = [caps for caps in closure_instances(fx, cf["def"]) if not any(c in gen for c in caps)]
+    return inst or [list(cf.get("upvars", []))]
